@@ -134,17 +134,36 @@ pub fn explore(body: &[u8], k: usize, allow_pending: bool, all_offsets: bool) ->
     out
 }
 
-pub struct ScriptIter(pub VecDeque<Ev>);
+thread_local! {
+    /// how often a scripted body was advanced again after it had reported its end
+    static AFTER_END: std::cell::Cell<u32> = std::cell::Cell::new(0);
+}
+
+/// reads and resets the count of polls a body received after its end (this thread)
+pub fn take_after_end() -> u32 {
+    AFTER_END.with(|c| c.replace(0))
+}
+
+/// a body that is not fused: what it would yield after `None` is not part of the message, so
+/// being asked is recorded (and a stream, whose contract allows it, panics)
+pub struct ScriptIter(pub VecDeque<Ev>, pub bool);
 
 impl ScriptIter {
     pub fn new(s: &Script) -> ScriptIter {
-        ScriptIter(s.iter().filter(|e| **e != Ev::Pending).cloned().collect())
+        ScriptIter(s.iter().filter(|e| **e != Ev::Pending).cloned().collect(), false)
     }
 }
 
 impl Iterator for ScriptIter {
     type Item = Result<Bytes, Error>;
     fn next(&mut self) -> Option<Self::Item> {
+        if self.0.is_empty() {
+            if self.1 {
+                AFTER_END.with(|c| c.set(c.get() + 1));
+            }
+            self.1 = true;
+            return None;
+        }
         match self.0.pop_front()? {
             Ev::Chunk(b) => Some(Ok(Bytes::from(b))),
             Ev::Empty => Some(Ok(Bytes::new())),
@@ -157,11 +176,11 @@ impl Iterator for ScriptIter {
     }
 }
 
-pub struct ScriptStream(pub VecDeque<Ev>);
+pub struct ScriptStream(pub VecDeque<Ev>, pub bool);
 
 impl ScriptStream {
     pub fn new(s: &Script) -> ScriptStream {
-        ScriptStream(s.iter().cloned().collect())
+        ScriptStream(s.iter().cloned().collect(), false)
     }
 }
 
@@ -169,7 +188,14 @@ impl Stream for ScriptStream {
     type Item = Result<Bytes, Error>;
     fn poll_next(mut self: Pin<&mut Self>, cx: &mut Context<'_>) -> Poll<Option<Self::Item>> {
         match self.0.pop_front() {
-            None => Poll::Ready(None),
+            None if self.1 => {
+                AFTER_END.with(|c| c.set(c.get() + 1));
+                panic!("body stream polled again after it reported its end");
+            }
+            None => {
+                self.1 = true;
+                Poll::Ready(None)
+            }
             Some(Ev::Pending) => {
                 cx.waker().wake_by_ref();
                 Poll::Pending
